@@ -62,6 +62,18 @@ Theorem c18_unify_path_no_parent : forall p r, unify_path p = Some r ->
   stays_below 0 (segs r) = true \/ segs r = [dd].
 Proof. exact unify_path_no_parent. Qed.
 
+(** ... semantically: followed from ANY base directory (stack of components), an accepted pack path ends in the base
+    or below it without ever leaving it; the bare '..' corner is exactly the parent directory. *)
+Theorem c18_unify_path_follows_below_base : forall p r, unify_path p = Some r ->
+  (forall base : list str, exists extra, follow base (segs r) = Some (extra ++ base))
+  \/ (segs r = [dd] /\ forall b base, follow (b :: base) (segs r) = Some base).
+Proof. exact unify_path_follows_below_base. Qed.
+
+(** '..' can only be the last segment of an accepted pack path. *)
+Theorem c18_unify_path_dotdot_only_last : forall p r, unify_path p = Some r ->
+  forall l1 l2, segs r = l1 ++ dd :: l2 -> l2 = [].
+Proof. exact unify_path_dotdot_only_last. Qed.
+
 (** ------------------------------------------------------------------ operations, File handles, chains, os.walk.
     [raw_sites], [chain_calls], [other_sites] are regenerated from filesys.py (Gen/FsOps_gen.v): the data flow of every
     call of RawFileSystem that reaches the operating system.  Instance obligations checked on every run. *)
